@@ -50,6 +50,10 @@ LEAVES = [
     dict(cname='get_dfs_sector_count', lean='get_dfs_sector_count', file='dfs/identify.cc', ptypes={'sec1': ARR}),
     dict(cname='get_hdfs_sector_count', lean='get_hdfs_sector_count', file='dfs/identify.cc', ptypes={'sec1': ARR}),
     dict(cname='total_sectors', lean='geometry_total_sectors', file='dfs/geometry.cc', members={'cylinders': 'cylinders', 'heads': 'heads', 'sectors': 'sectors'}, nparams=0),
+    dict(cname='catalog_sectors_for_format', lean='catalog_sectors_for_format', file='dfs/dfs_catalog.cc'),
+    dict(cname='data_sectors_reserved_for_catalog', lean='data_sectors_reserved_for_catalog', file='dfs/dfs_catalog.cc'),
+    dict(cname='max_file_count', lean='max_file_count', file='dfs/dfs_catalog.cc', callparams={'disc_format': 'fmt'}, params=['fmt']),
+    dict(cname='smells_like_hdfs', lean='smells_like_hdfs', file='dfs/identify.cc', ptypes={'sec1': ARR}, ret='Bool'),
     dict(cname='print_target_line_number', lean='target_line_number', file='basic/lines.c', upto_var='n'),
     # flux containers: the small integer functions of img_hfe.cc / img_hxcmfm.cc / track.h
     dict(cname='reverse_bit_order', lean='reverse_bit_order', file='dfs/img_hfe.cc'),
@@ -60,6 +64,10 @@ LEAVES = [
     dict(cname='le_quad', lean='hxc_le_quad', file='dfs/img_hxcmfm.cc', ptypes={'d': ARR}),
     dict(cname='raw_pos', lean='bitstream_raw_pos', file='dfs/img_hfe.cc', members={'stride_': 'stride_', 'first_': 'first_'}),
 ]
+
+
+ENUMS = [('dfs/dfs_catalog.cc', 'Format', ['HDFS', 'DFS', 'WDFS', 'OpusDDOS'])]
+ENUM_BASELINE = {('Format', 'HDFS'): 0, ('Format', 'DFS'): 1, ('Format', 'WDFS'): 2, ('Format', 'OpusDDOS'): 3}
 
 
 def gen_leaves(repo, out, report):
@@ -78,6 +86,18 @@ def gen_leaves(repo, out, report):
             else:
                 text = '-- TRANSLATOR-SKIP (%s): no baseline available\n' % e
         parts.append((spec['lean'], text))
+    # enumerators the hand-written model refers to by name: their values as the current source declares them
+    for (efile, ename, consts) in ENUMS:
+        lines = []
+        for c in consts:
+            v = tr.enum_value({'file': efile}, {'type': {'qualType': ename}}, c)
+            if v is None:
+                report['skipped'].append({'leaf': 'enum_%s_%s' % (ename, c), 'reason': 'enumerator not found in %s' % efile})
+                v = ENUM_BASELINE[(ename, c)]
+            else:
+                report['translated'].append('enum_%s_%s' % (ename, c))
+            lines.append('/-- value of `%s::%s` (%s) -/\ndef enum_%s_%s : Nat := %d\n' % (ename, c, efile, ename, c, v))
+        parts.append(('enum_' + ename, '\n'.join(lines)))
     hdr = ('/- GENERATED by tools/translate/translate.py from the current /repo working tree.\n'
            '   Do not edit; regenerated on every check run. -/\n'
            'import Beeb.Model.CInt\n\nnamespace Beeb.Gen\n\n')
